@@ -391,6 +391,38 @@ pub fn single_type_tree() -> TreeSpec {
     }]}
 }
 
+/// Two CAs under one TA: `bad` publishes nothing (no manifest: rejected,
+/// its resources become "unsafe") and holds address space of one family;
+/// `good` is healthy and holds the space of the *other* family made of the
+/// same leading bits. The two do not overlap.
+pub fn mirror_tree(bad_is_v6: bool) -> TreeSpec {
+    use std::net::Ipv4Addr;
+    use crate::rpkigen::{ObjSpec, TalSpec};
+    let mut ta = CaSpec::new("ta0", 0, "ta0.example", "repo");
+    ta.v4 = vec![(Ipv4Addr::new(10, 0, 0, 0), 8), (Ipv4Addr::new(32, 1, 0, 0), 16)];
+    ta.v6 = vec![("2001:db8::".parse().unwrap(), 32)];
+    ta.asns = vec![(64496, 64511)];
+    ta.objs = vec![ObjSpec::roa("r0a", 64496, "10.0.0.0", 16, 16)];
+    let mut bad = CaSpec::new("bad", 1, "ta0.example", "repo");
+    let mut good = CaSpec::new("good", 2, "ta0.example", "repo");
+    if bad_is_v6 {
+        bad.v6 = vec![("2001:db8::".parse().unwrap(), 32)];
+        good.v4 = vec![(Ipv4Addr::new(32, 1, 0, 0), 16)];
+        good.objs = vec![ObjSpec::roa("rg", 64500, "32.1.0.0", 16, 16), ObjSpec::roa("rg2", 64500, "32.1.13.184", 32, 32)];
+    }
+    else {
+        bad.v4 = vec![(Ipv4Addr::new(32, 1, 13, 184), 32)];
+        good.v6 = vec![("2001:db8::".parse().unwrap(), 32)];
+        good.objs = vec![ObjSpec::roa("rg", 64500, "2001:db8::", 32, 48)];
+    }
+    bad.point_fault = Some(PointFault::NoManifest);
+    ta.children.extend([bad, good]);
+    TreeSpec { tals: vec![TalSpec {
+        name: "alpha".into(), ta_uri: "rsync://ta0.example/repo/ta0.cer".into(),
+        ca: ta, wrong_key: false, https_uri: None,
+    }]}
+}
+
 /// The additional C02 cases; returns (evaluations, nontrivial, violations).
 fn explore_c02_extra(ctx: &Ctx) -> (u64, u64, Vec<(String, String, Value)>, std::collections::BTreeMap<String, u64>) {
     let gen = Gen::load();
@@ -425,6 +457,45 @@ fn explore_c02_extra(ctx: &Ctx) -> (u64, u64, Vec<(String, String, Value)>, std:
                 *outcomes.entry(format!("single-type:{}", if c02.is_empty() { "complete" } else { "VIOLATION" })).or_insert(0) += 1;
                 for (class, msg) in c02 {
                     viol.push((format!("tree:{class}:single-type-ca"), format!("single-type tree {}: {msg}", cfg.label()), replay.clone()));
+                }
+            }
+        }
+    }
+    // (c) a TAL with a second URI that yields nothing (tried first: https),
+    // and disjoint resources that only mixing up the address families
+    // makes overlap, under the unsafe-VRP reject policy
+    {
+        let mut extra: Vec<(String, TreeSpec, FilterPolicy)> = Vec::new();
+        let mut t = rpkigen::base_tree();
+        t.tals[0].https_uri = Some("https://dead.example/ta/ta0.cer".into());
+        extra.push(("tal-with-dead-first-uri".into(), t, FilterPolicy::Accept));
+        for policy in [FilterPolicy::Reject, FilterPolicy::Warn] {
+            extra.push((format!("mirror-bad-v6:{policy}"), mirror_tree(true), policy));
+            extra.push((format!("mirror-bad-v4:{policy}"), mirror_tree(false), policy));
+        }
+        for (i, (label, spec, policy)) in extra.iter().enumerate() {
+            let cfg = Cfg::default();
+            let image = Builder::new(&gen, cfg.stale).build(spec);
+            let case = Case::new(ctx.scratch.join(format!("extra-{i}")));
+            case.publish(&image);
+            case.write_tals(&image);
+            let mut config = case.config();
+            cfg.apply(&mut config);
+            config.unsafe_vrps = *policy;
+            let out = util::catch(|| etree::run(&config, false, &LocalExceptions::empty()))
+                .map_err(|e| format!("engine panicked: {e}")).and_then(|r| r);
+            let _ = std::fs::remove_dir_all(&case.dir);
+            evaluations += 1;
+            nontrivial += 1;
+            let replay = json!({"kind": "extra", "label": label});
+            match out {
+                Err(e) => viol.push((format!("tree:run-failed:{}", label.split(':').next().unwrap()), format!("{label}: {e}"), replay)),
+                Ok(o) => {
+                    let c02 = judge(&CaseResult { image, served: o.data }, &cfg, None).1;
+                    *outcomes.entry(format!("{}:{}", label.split(':').next().unwrap(), if c02.is_empty() { "complete" } else { "VIOLATION" })).or_insert(0) += 1;
+                    for (class, msg) in c02 {
+                        viol.push((format!("tree:{class}:{}", label.split(':').next().unwrap()), format!("{label}: {msg}"), replay.clone()));
+                    }
                 }
             }
         }
@@ -499,7 +570,11 @@ fn report_for(ctx: &Ctx, which: usize) -> Report {
             the store, then a newer publication carries one placement that \
             voids a fetched point (listed file missing / hash mismatch, \
             every manifest and CRL fault) - everything the fault-free run \
-            served must still be served from the stored points");
+            served must still be served from the stored points; a TAL \
+            whose first (https) URI yields nothing; and a rejected CA \
+            holding one address family next to a healthy CA holding the \
+            other family's space with the same leading bits, under \
+            unsafe-vrps reject and warn");
         rep.bound.push_str("; + 24 single-type runs + every point-voiding placement as a second run");
     }
     for (fp, msg, replay) in out.errors { rep.violation(fp, msg, replay); }
@@ -537,12 +612,19 @@ pub fn replay(ctx: &Ctx, v: &Value) -> Report {
             }
         }
         else {
-            let image = Builder::new(&gen, cfg.stale).build(&single_type_tree());
+            let label = v["label"].as_str().unwrap_or("");
+            let policy = if label.ends_with(":reject") { FilterPolicy::Reject } else if label.ends_with(":warn") { FilterPolicy::Warn } else { FilterPolicy::Accept };
+            let spec = if kind != "extra" { single_type_tree() }
+                else if label.starts_with("mirror-bad-v6") { mirror_tree(true) }
+                else if label.starts_with("mirror-bad-v4") { mirror_tree(false) }
+                else { let mut t = rpkigen::base_tree(); t.tals[0].https_uri = Some("https://dead.example/ta/ta0.cer".into()); t };
+            let image = Builder::new(&gen, cfg.stale).build(&spec);
             let case = Case::new(ctx.scratch.join("replay"));
             case.publish(&image);
             case.write_tals(&image);
             let mut config = case.config();
             cfg.apply(&mut config);
+            config.unsafe_vrps = policy;
             match etree::run(&config, false, &LocalExceptions::empty()) {
                 Ok(o) => {
                     println!("served: {}", o.data.describe());
